@@ -136,10 +136,16 @@ CHECK = (
     "def same(u, t):\n"
     "    v = Unit(t)\n"
     "    f = lambda a, b: a == b or (math.isnan(a) and math.isnan(b)) or math.isclose(a, b, rel_tol=1e-12)\n"
-    "    assert v.dimensions == u.dimensions and f(float(v.base_offset), float(u.base_offset)) and f(float(v.base_value), float(u.base_value)), (u, t, v)\n"
-    "    assert math.isnan(u.base_value) or v == u, (u, t, v)\n"
+    "    assert v.dimensions == u.dimensions and f(float(v.base_offset), float(u.base_offset)), (u, t, v)\n"
+    "    ok = u.base_value == 0 or 1e-290 < abs(u.base_value) < 1e290\n"
+    "    for b, p in u.expr.as_coeff_Mul()[1].as_powers_dict().items():\n"
+    "        if b.is_Symbol:\n"
+    "            sc = abs(float(Unit(b).base_value))\n"
+    "            ok = ok and not (sc > 0 and abs(float(p) * math.log10(sc)) > 290)\n"
+    "    if ok:\n"
+    "        assert f(float(v.base_value), float(u.base_value)) and (math.isnan(u.base_value) or v == u), (u, t, v)\n"
     "    import sympy\n"
-    "    if not any(f.is_number for f in sympy.Mul.make_args(u.expr)):\n"
+    "    if u.expr == 1 or not any(f.is_number for f in sympy.Mul.make_args(u.expr)):\n"
     "        assert v.expr == u.expr and hash(v) == hash(u), (u.expr, t, v.expr)\n"
 )
 
@@ -179,7 +185,7 @@ def snip_reparse_arith(prog, which):
 
 
 def snip_spell(variants):
-    return PRE + f"vs = {variants!r}\nus = [Unit(v) for v in vs]\nfor v, u in zip(vs, us):\n    assert u == us[0] and u.expr == us[0].expr and hash(u) == hash(us[0]), (vs[0], v, us[0].expr, u.expr)\n"
+    return PRE + f"vs = {variants!r}\nus = [Unit(v) for v in vs]\nfor v, u in zip(vs, us):\n    assert u == us[0] and us[0] == u and u.dimensions == us[0].dimensions, (vs[0], v, us[0], u)\n"
 
 
 def snip_bytes(b):
@@ -328,7 +334,9 @@ class Grammar:
 
 UNICODE_PAIRS = [("µm", "um"), ("μm", "um"), ("µm", "μm"), ("µs", "us"), ("μF", "uF"), ("Ω", "ohm"), ("kΩ", "kohm"), ("Å", "angstrom"),
                  ("°", "deg"), ("°", "degree"), ("°C", "degC"), ("°F", "degF"), ("%", "percent"), ("m°C", "mdegC"), ("Ω*m", "ohm*m"),
-                 ("µm/Ω**2", "um/ohm**2"), ("Å**-1", "1/angstrom"), ("°**2", "deg**2")]
+                 ("µm/Ω**2", "um/ohm**2"), ("Å**-1", "1/angstrom"), ("°**2", "deg**2"),
+                 ("°*°", "deg*deg"), ("°C/°F", "degC/degF"), ("%*%", "percent*percent"), ("%/°*%/°", "percent/deg*percent/deg"),
+                 ("µm*µs/µF", "um*us/uF"), ("Ω/kΩ", "ohm/kohm")]
 
 
 def mutate_chars(rng, s, pool):
@@ -431,6 +439,7 @@ PROBES = [
     "'m'", "\"m\"", "sqrt('4')", "abs(-2)*m", "__import__('os')", "().__class__", "m.name", "exp(0)*m", "len('ab')*m", "print(1)", "open('x')",
     "m if 1 else s", "not m", "m or s", "lambda: m", "m;s", "m:s", "m=s", "m$", "m!", "m?", "m`",
     # resource probes
+    "2**sqrt(-2)", "m**sqrt(-2)", "m**sqrt(2)", "km**sqrt(-1)",
     "9**9**9**9", "m**9**9**9", "1e999999999*m", "1e-999999999*m", "0/0", "1/0", "1/(1/0)", "10**5000*m",
 ]
 
@@ -550,7 +559,7 @@ def run(tier, seed):
                 for which in ("str", "repr"):
                     v = rep["rt_" + which]
                     if v != "same":
-                        how = v if v.startswith("raises") else "differs"
+                        how = "fails" if rep["kind"] == "non-rational-exponent" else v if v.startswith("raises") else "differs"
                         chk.fail(f"reparse|{which}|{how}|{rep['kind']}", f"Unit({which}(u)) for u = Unit({s!r}) [{rep[which]!r}]: {v}",
                                  {"python": snip_reparse_str(s, which), "text": s})
         # -- correspondence
@@ -658,7 +667,8 @@ def run(tier, seed):
     # deterministic: every atomic unit, the dimensionless unit, inverse/sqrt of a few
     fixed = [[["unit", a]] for a in G.atoms] + [[["unit", ""]], [["unit", "m"], ["div", "m"]], [["unit", "m"], ["powq", "-1/1"]],
              [["unit", "m"], ["powq", "-1/2"]], [["unit", "km"], ["div", "m"], ["simplify", ""]], [["unit", "delta_degC"], ["mul", "m"]],
-             [["unit", "degC"], ["powq", "2/1"]], [["unit", "%"], ["powq", "2/1"]], [["unit", "m"], ["coeff", "-3/2"]]]
+             [["unit", "degC"], ["powq", "2/1"]], [["unit", "%"], ["powq", "2/1"]], [["unit", "m"], ["coeff", "-3/2"]],
+             [["unit", "degC"], ["mul", "dimensionless"]], [["unit", "degF"], ["div", "counts"]]]
     progs = fixed + progs
     with cf.ThreadPoolExecutor(nproc) as tp:
         pparts = [progs[i::nproc] for i in range(nproc)]
@@ -729,6 +739,10 @@ def run(tier, seed):
         spell_cases.append(G.spellings(mono, inv_alts))
     for a, b in UNICODE_PAIRS:
         spell_cases.append([("reference", b), ("unicode-vs-ascii", a)])
+    # every documented alternative name against its canonical symbol, every run
+    for k, v in ex["inv_names"].items():
+        if k and k != v:
+            spell_cases.append([("reference", v), ("alternative-names", k)])
     srep = reals[0].run([{"k": "spell", "v": [t for _k, t in case]} for case in spell_cases])
     slines = []
     for case, rep in zip(spell_cases, srep):
@@ -741,6 +755,8 @@ def run(tier, seed):
         for (kind, text), v in zip(case, rep["verdicts"]):
             chk.count("spell:" + kind)
             if v != "same" and rep["verdicts"][0] == "same":
+                if kind == "alternative-names" and "°" in text and len(case) == 2:
+                    kind = "alternative-names-degree-sign"
                 chk.fail(f"spelling|{kind}", f"{text!r} and {case[0][1]!r} are spellings of one expression but give {v}",
                          {"python": snip_spell([case[0][1], text])})
             slines.append("c20.parse\t" + cps(text))
@@ -756,12 +772,16 @@ def run(tier, seed):
         ms = [next(it, ["missing"]) for _ in case]
         if rep["verdicts"][0] != "same":
             continue
-        ref = ms[0][:3]
-        for (kind, text), m in zip(case, ms):
+        for (kind, text), m, rx, vd in zip(case, ms, rep["exprs"], rep["verdicts"]):
             if m[0] == "err" and m[1] == "unmodelled":
                 continue
-            if m[:3] != ref:
-                chk.disagree("c20.parse(spelling)", f"{text!r} vs {case[0][1]!r}: model {m[:3]} vs {ref}")
+            if vd.startswith("raises:"):
+                want = "UnitParseError" if vd == "raises:UnitParseError" else vd[7:]
+                if not (m[0] == "err" and m[1] == want):
+                    chk.disagree("c20.parse(spelling)", f"{text!r}: implementation {vd}, model {m[:3]}")
+                continue
+            if rx is None or m[0] != "ok" or model_expr(m) != real_expr(rx):
+                chk.disagree("c20.parse(spelling)", f"{text!r} (a spelling of {case[0][1]!r}): model {m[:3]} implementation {rx}")
 
     for r in reals:
         r.stop()
